@@ -143,6 +143,14 @@ def has_early_exit(args):
     return False
 
 
+def uses_stream_context(args):
+    """R1(b): with an unkeyed early-exit verb in the chain the reader stops at a schedule-dependent point, so the
+    stream context attached to records emitted at end of stream by non-streaming verbs, and seen by end blocks
+    (NR, FNR, FILENAME, FILENUM), is not a function of the input alone."""
+    import re
+    return any(re.search(r"\b(NR|FNR|FILENAME|FILENUM)\b", a) for a in args[1:])
+
+
 def judge(case, vd, ref, r, cfg):
     cfgs = json.loads(json.dumps(cfg))
     if r.status in ("deadlock", "livelock"):
@@ -159,6 +167,8 @@ def judge(case, vd, ref, r, cfg):
     if ref.code == 0:
         if r.code != 0:
             vd.add("fails-under-perturbation", config=cfgs, code=r.code, stderr=r.stderr[:400].decode("utf-8", "replace"))
+        elif (r.stdout != ref.stdout or r.files != ref.files) and has_early_exit(case["args"]) and uses_stream_context(case["args"]):
+            vd.notes["R1b_relaxed"] = vd.notes.get("R1b_relaxed", 0) + 1
         elif r.stdout != ref.stdout:
             vd.add("stdout-differs", config=cfgs, ref_len=len(ref.stdout), got_len=len(r.stdout),
                    ref_sha=sha12(ref.stdout), got_sha=sha12(r.stdout), first_diff=first_diff(ref.stdout, r.stdout))
